@@ -192,16 +192,19 @@ func runC09(r *Run, p *Prog) {
 		for f := range fns {
 			for _, cs := range compiledPatterns(p, f) {
 				n++
-				k, isK := cs.Common.Args[0].(*ssa.Const)
+				pats, isK := patternTexts(cs.Common.Args[0])
 				ok := false
 				detail := "pattern is not a constant"
 				if isK {
-					var pat string
-					fmt.Sscanf(constTerm(k), "const:%q", &pat)
-					_, err := regexp.Compile(pat)
-					_, err2 := syntax.Parse(pat, syntax.Perl)
-					ok = err == nil && err2 == nil
-					detail = fmt.Sprintf("pattern %q compiles: %v", pat, ok)
+					ok = true
+					for _, pat := range pats {
+						_, err := regexp.Compile(pat)
+						_, err2 := syntax.Parse(pat, syntax.Perl)
+						if err != nil || err2 != nil {
+							ok = false
+						}
+					}
+					detail = fmt.Sprintf("pattern(s) %q compile: %v", pats, ok)
 				}
 				r.Ob("O4", shortName(f), "regexp.MustCompile #"+fmt.Sprint(n)+" cannot panic (constant pattern compiled by the checker)", cs.Instr.Pos(), ok, detail)
 			}
